@@ -215,6 +215,7 @@ def handle_lease(E):
             ('one unit consumed per moved frame', I(lease.attrs['_request_counter']) == k),
             ('k frames taken from the head', z3.And(h == rh0 + k, t == rt0, a.eq(ra), k >= 0, k <= rt0 - rh0)),
             ('never more than granted', k <= I(n)),
+            ('nothing is released under a lease that has already expired', z3.Implies(I(ttl) * 1000 <= 0, k == 0)),
             ('k frames appended to the send queue in order',
              z3.And(s_h == sh0, s_t == st0 + k,
                     z3.ForAll([j], z3.Implies(z3.And(j >= 0, j < k), z3.Select(s_a, st0 + j) == z3.Select(ra, rh0 + j))),
